@@ -165,3 +165,44 @@ pub fn c01_pdu_iter_view() {
     drop(it);
     assert!(slot(&pdu_loop, 0).state == FrameState::None);
 }
+
+// The view keeps showing the returned bytes for as long as the caller holds it - also when the slot
+// it points into is reused by a later request (of the same or another task).
+//@ harness: c01_view_lifetime
+//@ property: C01, C20
+//@ tier: quick
+//@ unwind: 8
+//@ unwindset: c01_view_lifetime:34
+//@ functions: ReceivedFrame::first_pdu; ReceivedFrame::drop; PduLoop::alloc_frame; FrameBox::init; ReceivedPdu::deref
+//@ bounds: 1 slot whose datagram area holds an arbitrary well-formed response (symbolic data, length 1..=8); the caller obtains the view through the single-datagram path (first_pdu), keeps it, and a later request allocates the same slot
+//@ expect_fail: first_pdu consumes the frame (slot released on return) while the returned view still points into the slot buffer; the next allocation zero-fills it under the holder (finding F2)
+#[kani::proof]
+#[kani::unwind(8)]
+pub fn c01_view_lifetime() {
+    static STORAGE: PduStorage<1, FRAME> = PduStorage::new();
+    let (_tx, _rx, pdu_loop) = STORAGE.try_split().unwrap();
+    let mut content: [u8; 32] = kani::any();
+    let dlen: u8 = kani::any();
+    kani::assume(dlen >= 1 && dlen <= 8);
+    content[6] = dlen;
+    content[7] = 0;
+    let mut i = 0;
+    while i < 32 {
+        set_slot_byte(&pdu_loop, 0, 16 + i, content[i]);
+        i += 1;
+    }
+    forge(&pdu_loop, 0, Slot { state: FrameState::RxProcessing, first_pdu: u16::from(content[1]), payload_len: 32, slot_index: 0 });
+    let st = pdu_loop.verif_storage_ref();
+    let frame = ReceivedFrame::verif_from_frame_element(st.frame_at_index(0), st.verif_pdu_idx(), FRAME);
+    let handle = PduResponseHandle { index_in_frame: 0, pdu_idx: content[1], command_code: content[0], alloc_size: 0 };
+    let pdu = frame.first_pdu(handle).unwrap();
+    let j: usize = kani::any();
+    kani::assume(j < usize::from(dlen));
+    assert!(pdu[j] == content[10 + j], "view shows the returned bytes right after first_pdu");
+    // a later request (same task or another one) gets the slot while the view is still held
+    let later = pdu_loop.alloc_frame();
+    kani::cover!(later.is_ok());
+    // the caller's view must still show what the network returned
+    assert!(pdu[j] == content[10 + j], "view still shows the returned bytes after the slot was reallocated");
+    drop(later);
+}
